@@ -9,6 +9,7 @@ import SodiumModel.Driver.C01
 import SodiumModel.Driver.C18
 import SodiumModel.Driver.C17
 import SodiumModel.Driver.C20
+import SodiumModel.Driver.C10
 open Sodium.Driver
 
 def handlers : List (String → List String → Option String) := [
@@ -20,7 +21,8 @@ def handlers : List (String → List String → Option String) := [
   Sodium.Driver.C01.handle,
   Sodium.Driver.C18.handle,
   Sodium.Driver.C17.handle,
-  Sodium.Driver.C20.handle
+  Sodium.Driver.C20.handle,
+  Sodium.Driver.C10.handle
 ]
 
 /-- state carried between op lines (stateful families only) -/
